@@ -152,3 +152,60 @@ func (z *ZVC25Conn) Input() []byte {
 }
 func (z *ZVC25Conn) Hand() []byte     { return z.c.hand.Bytes() }
 func (z *ZVC25Conn) RawInputLen() int { return z.c.rawInput.Len() }
+
+// ---- second part: full readRecordOrCCS / changeCipherSpec / Conn.Write over a caller-supplied transport ----
+
+// SetNext fills nextCipher / nextMac (what prepareCipherSpec stores, without touching the version).
+func (h *ZVC25Half) SetNext(ciph interface{}, mac hash.Hash) {
+	h.hc.nextCipher = ciph
+	h.hc.nextMac = mac
+}
+
+// ZVC25NewConnOn is ZVC25NewConn over the caller's transport; pending cipher specs of the halves are carried over.
+func ZVC25NewConnOn(nc net.Conn, vers uint16, haveVers, handshakeComplete, dynDisabled, disableBEAST, buffering bool,
+	rand io.Reader, in, out *ZVC25Half, bytesSent, packetsSent int64) *ZVC25Conn {
+	z := ZVC25NewConn(vers, haveVers, handshakeComplete, dynDisabled, buffering, rand, in, out, bytesSent, packetsSent, nil)
+	z.c.conn = nc
+	z.c.config.DisableTLS10BEASTMitigation = disableBEAST
+	if in != nil {
+		z.c.in.nextCipher, z.c.in.nextMac = in.hc.nextCipher, in.hc.nextMac
+	}
+	if out != nil {
+		z.c.out.nextCipher, z.c.out.nextMac = out.hc.nextCipher, out.hc.nextMac
+	}
+	return z
+}
+
+func (z *ZVC25Conn) ReadRecordOrCCS(expectChangeCipherSpec bool) error {
+	z.c.in.Lock()
+	defer z.c.in.Unlock()
+	return z.c.readRecordOrCCS(expectChangeCipherSpec)
+}
+
+// Write is the exported Conn.Write (handshake already marked complete).
+func (z *ZVC25Conn) Write(b []byte) (int, error) { return z.c.Write(b) }
+
+func (z *ZVC25Conn) PreloadHand(b []byte) { z.c.hand.Write(b) }
+func (z *ZVC25Conn) ResetHand()           { z.c.hand.Reset() }
+
+// DrainInput returns and consumes the application data waiting in c.input.
+func (z *ZVC25Conn) DrainInput() []byte {
+	b := make([]byte, z.c.input.Len())
+	z.c.input.Read(b)
+	return b
+}
+func (z *ZVC25Conn) InErr() error      { return z.c.in.err }
+func (z *ZVC25Conn) InCipherNil() bool { return z.c.in.cipher == nil }
+func (z *ZVC25Conn) InNextNil() bool   { return z.c.in.nextCipher == nil }
+func (z *ZVC25Conn) OutNextNil() bool  { return z.c.out.nextCipher == nil }
+
+const (
+	ZVC25RecordHeaderLen          = recordHeaderLen
+	ZVC25MaxUselessRecords        = maxUselessRecords
+	ZVC25TCPMSSEstimate           = tcpMSSEstimate
+	ZVC25RecordSizeBoostThreshold = recordSizeBoostThreshold
+	ZVC25RecordTypeCCS            = int(recordTypeChangeCipherSpec)
+	ZVC25RecordTypeAlert          = int(recordTypeAlert)
+	ZVC25RecordTypeHandshake      = int(recordTypeHandshake)
+	ZVC25RecordTypeAppData        = int(recordTypeApplicationData)
+)
